@@ -334,6 +334,45 @@ func xblScenarios() []*xblScenario {
 		s.runRelay(r1.key, xblPrev(4), nil, nil)
 	}}
 
+	// the victim's last GJKR message (phase 10) never leaves it: the others
+	// mark it inactive in the final phase and publish a result that lists it;
+	// the victim itself saw nothing wrong, signs a result nobody else supports,
+	// fails to publish and must give up its membership as the chain decided
+	fateOut2 := &xblScenario{name: "fateOut2", n: 3, h: 2, seats: abc, bad: []string{victim}, run: func(s *xblRun) {
+		w := s.w
+		s.startAll()
+		w.nodes[victim].inc.dropOut.Store(func(m net.TaggedMarshaler) bool {
+			return xblTypeIs(m, "misbehaved_ephemeral_keys")
+		})
+		r1 := s.runDKG(nil, nil, nil)
+		if !r1.accepted {
+			s.note("round 1 produced no accepted result")
+			return
+		}
+		s.restart(victim)
+		s.runRelay(r1.key, xblPrev(11), nil, nil)
+	}}
+
+	// the victim misses the last GJKR message of ONE other member and marks it
+	// inactive: its result differs from the one the chain accepts (which lists
+	// nobody); it keeps its membership, with the operators the chain decided
+	other := xblOthers(abc, victim)[r.Intn(2)]
+	otherSeat := map[string]int{"a": 1, "b": 2, "c": 3}[other]
+	fateKeep2 := &xblScenario{name: "fateKeep2", n: 3, h: 2, seats: abc, bad: []string{victim}, run: func(s *xblRun) {
+		w := s.w
+		s.startAll()
+		w.nodes[victim].inc.dropIn.Store(func(m net.Message) bool {
+			sd, ok := m.Payload().(xblSender)
+			return ok && strings.Contains(m.Type(), "misbehaved_ephemeral_keys") && int(sd.SenderID()) == otherSeat
+		})
+		r1 := s.runDKG(nil, nil, nil)
+		if !r1.accepted {
+			s.note("round 1 produced no accepted result")
+			return
+		}
+		s.runRelay(r1.key, xblPrev(12), nil, nil)
+	}}
+
 	// the victim never receives the others' result signatures: its own
 	// publication fails for lack of support and it keeps its membership
 	// because the chain accepted the same key and does not list it
@@ -441,7 +480,7 @@ func xblScenarios() []*xblScenario {
 	_ = victimSeat
 
 	all := map[string]*xblScenario{}
-	for _, sc := range []*xblScenario{happy, crash, fateOut, fateKeep, timeout, resume, twoRounds, multiSeat} {
+	for _, sc := range []*xblScenario{happy, crash, fateOut, fateOut2, fateKeep, fateKeep2, timeout, resume, twoRounds, multiSeat} {
 		all[sc.name] = sc
 	}
 	want := strings.Split(os.Getenv("XBL_SCENARIOS"), ",")
